@@ -29,7 +29,7 @@ import (
 
 var sameCookie atomic.Bool
 
-var recCap = ev.New("c11/pool-cap", "rapid: a real IPClient with NTS exchanges keys with the harness's key-exchange server (8 cookies, or 9..16 for three cases in seven), loses 0..3 exchanges (so that its pool has free slots) and then talks to a harness NTS server that authenticates properly but answers the first request with 0..14 cookies instead of the one asked for; every later request is answered without any cookie, so that the number of further successful exchanges before the client has to exchange keys again is the size its pool had. Oracle: that size is at most 8 (and 7 plus the distinct cookies delivered, if that is less; in some cases the server delivers one cookie several times); no cookie appears in two of the requests seen. One evaluation = one history. Non-trivial: more than one cookie delivered; distinct by the count")
+var recCap = ev.New("c11/pool-cap", "rapid: a real IPClient with NTS exchanges keys with the harness's key-exchange server (8 cookies, or 9..16 for three cases in seven; in one case in five its second cookie record repeats the first), loses 0..3 exchanges (so that its pool has free slots) and then talks to a harness NTS server that authenticates properly but answers the first request with 0..14 cookies instead of the one asked for; every later request is answered without any cookie, so that the number of further successful exchanges before the client has to exchange keys again is the size its pool had. Oracle: that size is at most 8 (and 7 plus the distinct cookies delivered, if that is less; in some cases the server delivers one cookie several times); no cookie appears in two of the requests seen. One evaluation = one history. Non-trivial: more than one cookie delivered; distinct by the count")
 
 func TestPropPoolCap(t *testing.T) {
 	addr := netlab.UDPAddr(netlab.Addr(6), 12414)
@@ -91,6 +91,14 @@ func TestPropPoolCap(t *testing.T) {
 		keN := rapid.SampledFrom([]int{8, 8, 8, 9, 10, 12, 16}).Draw(t, "cookies-from-key-exchange")
 		keCookies.Store(int32(keN))
 		defer keCookies.Store(8)
+		keDup := rapid.IntRange(0, 4).Draw(t, "key-exchange-repeats-a-cookie") == 0
+		keRepeatFirst.Store(keDup)
+		defer keRepeatFirst.Store(false)
+		keDistinct := keN
+		if keDup {
+			keDistinct = keN - 1
+			recCap.Label("key-exchange-with-a-repeated-cookie")
+		}
 		c := &client.IPClient{Log: slog.New(slog.NewTextHandler(io.Discard, nil))}
 		c.Auth.Enabled = true
 		c.Auth.NTSKEFetcher = ntske.Fetcher{Log: c.Log, Port: strconv.Itoa(ke.Addr.Port),
@@ -153,9 +161,9 @@ func TestPropPoolCap(t *testing.T) {
 				}
 			}
 		}
-		want := min(8, min(8, keN)-lost-1+n)
+		want := min(8, min(8, keDistinct)-lost-1+n)
 		if same {
-			want = min(8, min(8, keN)-lost-1+1) // one distinct cookie was delivered
+			want = min(8, min(8, keDistinct)-lost-1+1) // one distinct cookie was delivered
 			recCap.Label("reply-with-the-same-cookie-several-times")
 		}
 		if keN > 8 {
